@@ -373,11 +373,11 @@ func (x *Exec) specBinary(n *ast.BinaryExpr, env *specEnv, reach Term) Val {
 		case token.SUB:
 			return Val{MI: true, L: []Term{Op("bvsub", s, p, q)}}
 		case token.MUL:
-			return Val{MI: true, L: []Term{Op("bvmul", s, p, q)}}
+			return Val{MI: true, L: []Term{x.c.Arith("bvmul", s, p, q)}}
 		case token.QUO:
-			return Val{MI: true, L: []Term{Op("bvsdiv", s, p, q)}}
+			return Val{MI: true, L: []Term{x.c.Arith("bvsdiv", s, p, q)}}
 		case token.REM:
-			return Val{MI: true, L: []Term{Op("bvsrem", s, p, q)}}
+			return Val{MI: true, L: []Term{x.c.Arith("bvsrem", s, p, q)}}
 		case token.EQL:
 			return boolV(Eq(p, q))
 		case token.NEQ:
@@ -437,6 +437,22 @@ func resultType(op token.Token, t types.Type) types.Type {
 func (x *Exec) specCall(n *ast.CallExpr, env *specEnv, reach Term) Val {
 	boolV := func(t Term) Val { return Val{T: types.Typ[types.Bool], L: []Term{t}} }
 	if id, ok := n.Fun.(*ast.Ident); ok {
+		if d, isDef := x.e.cs.Defines[id.Name]; isDef {
+			if len(n.Args) != len(d.Params) {
+				specFail("%s: %d arguments for %d parameters", d.Name, len(n.Args), len(d.Params))
+			}
+			names := map[string]Val{}
+			for k, a := range n.Args {
+				names[d.Params[k]] = x.evalSpec(a, env, reach)
+			}
+			de := *env
+			de.names = names
+			de.results = nil
+			if p := x.e.typesPkg(d.PkgPath); p != nil {
+				de.pkg = p
+			}
+			return x.evalSpec(d.Clause.Expr, &de, reach)
+		}
 		switch id.Name {
 		case "__imp":
 			a := x.evalBool(n.Args[0], env, reach)
